@@ -38,7 +38,7 @@ ListsS  == {<<>>, <<VInt(1), VInt(9)>>} \cup (IF Thorough THEN SeqsUpTo(ElemS, 1
 RopW    == {<<VInt(1), VInt(9)>>} \cup (IF Thorough THEN {<<VInt(2), VInt(1), VInt(2)>>} ELSE {})
 \* (quick: the elements are interchangeable - every initial u over them is enumerated -, the first call names two of them)
 ElemF   == IF Thorough THEN ElemS ELSE {VInt(1), VInt(9)}
-FirstU  == {<<"op", fn, <<"elem", e>>>> : fn \in Fns, e \in ElemF} \cup {<<"in", e>> : e \in ElemF}
+FirstU  == {<<"op", fn, <<"elem", e>>>> : fn \in (IF Thorough THEN Fns ELSE Fns \ {"or"}), e \in ElemF} \cup {<<"in", e>> : e \in ElemF}
            \cup {<<"rop", "and", w>> : w \in RopW}
 AllU    == {<<"op", fn, <<"elem", e>>>> : fn \in Fns, e \in ElemS} \cup {<<"in", e>> : e \in ElemS}
            \cup {<<"op", fn, <<"list", s>>>> : fn \in Fns, s \in ListsS}
